@@ -380,7 +380,9 @@ impl Bitstr {
     }
 
     pub fn detach(self) -> Bitstr {
-        if Rc::strong_count(&self.data) == 1 {
+        // reuse the buffer only when the copy below would give the same range (start 0): positions inside
+        // a result are observable (offset, find) and must not depend on who else shares the buffer
+        if Rc::strong_count(&self.data) == 1 && self.range.start == 0 {
             self
         } else if self.len() == 0 {
             Bitstr::new()
